@@ -24,7 +24,8 @@ CONSTANTS Palette,      \* set of grant records [id, type, cmd, start, exp, user
 Users == {g.user : g \in Palette}
 Keys  == {g.key : g \in Palette}
 Kinds == {[type |-> "shell", cmd |-> "-"], [type |-> "cmd", cmd |-> "A"], [type |-> "cmd", cmd |-> "AB"], [type |-> "cmd", cmd |-> "B"],
-          [type |-> "localpf", cmd |-> "-"], [type |-> "remotepf", cmd |-> "-"], [type |-> "issue", cmd |-> "-"]}
+          [type |-> "localpf", cmd |-> "-"], [type |-> "remotepf", cmd |-> "-"], [type |-> "issue", cmd |-> "-"],
+          [type |-> "pfdata", cmd |-> "-"]}     \* a port-forwarding DATA tube: proxied only along a forwarding that was authorized before
 ById(i) == CHOOSE g \in Palette : g.id = i
 
 VARIABLES now, added, store, keyset, sess, started, issued, nreq, enabled, ntog
@@ -53,10 +54,10 @@ Admits(u, k) == enabled /\ store[<<u, k>>] # <<>>      \* a stored grant admits 
 Connect(u, k) ==
     /\ Len(sess) < MaxSess
     /\ IF Admits(u, k)
-       THEN /\ sess' = Append(sess, [user |-> u, key |-> k, grants |-> store[<<u, k>>], ok |-> TRUE, en |-> enabled])
+       THEN /\ sess' = Append(sess, [user |-> u, key |-> k, grants |-> store[<<u, k>>], ok |-> TRUE, en |-> enabled, fwd |-> FALSE])
             /\ store' = [store EXCEPT ![<<u, k>>] = <<>>]
             /\ keyset' = keyset \ {k}
-       ELSE /\ sess' = Append(sess, [user |-> u, key |-> k, grants |-> <<>>, ok |-> FALSE, en |-> enabled])
+       ELSE /\ sess' = Append(sess, [user |-> u, key |-> k, grants |-> <<>>, ok |-> FALSE, en |-> enabled, fwd |-> FALSE])
             /\ UNCHANGED <<store, keyset>>
     /\ UNCHANGED <<now, added, started, issued, nreq, enabled, ntog>>
 
@@ -68,7 +69,12 @@ Min(S) == CHOOSE x \in S : \A y \in S : x <= y
 
 Request(s, kd) ==
     /\ s \in 1..Len(sess) /\ sess[s].ok /\ nreq < MaxReq /\ nreq' = nreq + 1
-    /\ IF kd.type = "issue"
+    /\ IF kd.type = "pfdata"
+       THEN /\ IF sess[s].fwd \/ ~CheckPF
+               THEN started' = started \cup {[sid |-> s, kind |-> kd, grant |-> -1, at |-> now, n |-> nreq]}
+               ELSE UNCHANGED started
+            /\ UNCHANGED <<sess, issued>>
+       ELSE IF kd.type = "issue"
        THEN /\ IF CheckIssue THEN UNCHANGED <<started, issued>>
                ELSE started' = started \cup {[sid |-> s, kind |-> kd, grant |-> 0, at |-> now, n |-> nreq]} /\ issued' = issued + 1
             /\ UNCHANGED sess
@@ -78,7 +84,7 @@ Request(s, kd) ==
        ELSE IF Usable(s, kd) # {}
        THEN LET i == Min(Usable(s, kd)) IN
             /\ started' = started \cup {[sid |-> s, kind |-> kd, grant |-> sess[s].grants[i], at |-> now, n |-> nreq]}
-            /\ sess' = [sess EXCEPT ![s].grants = RemoveAt(@, i)]
+            /\ sess' = [sess EXCEPT ![s].grants = RemoveAt(@, i), ![s].fwd = @ \/ kd.type = "localpf"]
             /\ UNCHANGED issued
        ELSE UNCHANGED <<sess, started, issued>>
     /\ UNCHANGED <<now, added, store, keyset, enabled, ntog>>
@@ -94,13 +100,16 @@ Spec == Init /\ [][Next]_vars
 (* every started action is justified by a grant for the session's user and key, of the same kind and text, *)
 (* effective when the action started *)
 Justified == \A a \in started :
+              IF a.grant = -1                                   \* data tube: a local forwarding was started in this session before
+              THEN \E b \in started : b.sid = a.sid /\ b.kind.type = "localpf" /\ b.grant > 0 /\ b.n < a.n
+              ELSE
                 /\ a.grant # 0
                 /\ LET g == ById(a.grant) IN
                    /\ g \in added /\ g.user = sess[a.sid].user /\ g.key = sess[a.sid].key
                    /\ g.type = a.kind.type /\ (a.kind.type = "cmd" => g.cmd = a.kind.cmd)
                    /\ g.start <= a.at /\ a.at < g.exp
 (* each grant authorizes a single action, in whatever session *)
-SingleUse == \A a, b \in started : (a.grant # 0 /\ a.grant = b.grant) => a = b
+SingleUse == \A a, b \in started : (a.grant > 0 /\ a.grant = b.grant) => a = b
 (* a grant lives in exactly one place: the store, one session, or it is used up *)
 OnePlace == \A g \in added :
                Cardinality({p \in DOMAIN store : \E i \in 1..Len(store[p]) : store[p][i] = g.id})
